@@ -234,6 +234,48 @@ def run_scenario(name, log, outdir):
             f.write("syscall trace of recovery (file, call):\n" + "\n".join("%s %s" % e for e in ev if e[0] != "pwrite64" or True)[-4000:])
             f.write("\nverdict: %s\n" % ("VIOLATED: no fsync(ht) between the last pwrite(ht) and ftruncate(wal)" if violated else "holds / not observed"))
         return violated, tr
+    if name == "c04_commit_order":
+        st = os.path.join(outdir, name + ".strace")
+        subprocess.run(["strace", "-f", "-y", "-e", "trace=pwrite64,write,fsync,fdatasync,ftruncate", "-o", st, b, "c04_two_commits", d],
+                       stdout=subprocess.PIPE, stderr=subprocess.STDOUT, text=True)
+        if not os.path.exists(st):
+            return None, tr
+        ev = []
+        for ln in open(st):
+            m = re.search(r"(pwrite64|write|fsync|fdatasync|ftruncate)\(\d+<([^>]*)>", ln)
+            if m and os.path.basename(m.group(2)) in ("ht", "wal", "meta", "ln", "bbn"):
+                c = m.group(1)
+                ev.append(("sync" if c in ("fsync", "fdatasync") else ("write" if c in ("write", "pwrite64") else c), os.path.basename(m.group(2))))
+        problems = []
+        metas = [i for i, e in enumerate(ev) if e == ("write", "meta")]
+        for k, mi in enumerate(metas):
+            end = metas[k + 1] if k + 1 < len(metas) else len(ev)
+            start = metas[k - 1] if k > 0 else 0
+            # the meta write itself is fsynced before anything else touches ht / wal
+            seg = ev[mi + 1:end]
+            msync = next((j for j, e in enumerate(seg) if e == ("sync", "meta")), None)
+            if msync is None:
+                problems.append("commit %d: meta written but never fsynced" % k)
+                continue
+            if any(f in ("ht", "wal") for _c, f in seg[:msync]):
+                problems.append("commit %d: ht/wal touched before fsync(meta) returned" % k)
+            # WAL written before this meta write must be fsynced before it
+            pre = ev[start:mi]
+            ww = [j for j, e in enumerate(pre) if e == ("write", "wal")]
+            if ww and ("sync", "wal") not in pre[ww[-1]:]:
+                problems.append("commit %d: WAL not fsynced before the meta switch-over" % k)
+            # after the switch-over: the WAL is truncated only after fsync(ht)
+            post = seg[msync + 1:]
+            tr_i = next((j for j, e in enumerate(post) if e == ("ftruncate", "wal")), None)
+            if tr_i is not None and ("sync", "ht") not in post[:tr_i]:
+                problems.append("commit %d: WAL truncated before fsync(ht)" % k)
+        with open(tr, "w") as f:
+            f.write("scenario %s: two commits under strace; per-file syscall order\n" % name)
+            f.write("\n".join("%s %s" % e for e in ev)[-6000:])
+            f.write("\nproblems: %s\n" % (problems or "none"))
+        if not metas:
+            return None, tr
+        return bool(problems), tr
     p = subprocess.run([b, name, d], stdout=subprocess.PIPE, stderr=subprocess.STDOUT, text=True)
     open(tr, "w").write("$ %s %s %s\n%s" % (b, name, d, p.stdout[-4000:]))
     if "VIOLATED " + name in p.stdout:
